@@ -7,10 +7,12 @@ package meas
 import (
 	"bytes"
 	"crypto/sha512"
+	"encoding/binary"
 	"encoding/hex"
 	"encoding/json"
 	"fmt"
 	epb "github.com/google/gce-tcb-verifier/proto/endorsement"
+	"github.com/google/uuid"
 	"math/rand"
 	"strconv"
 	"sync"
@@ -39,6 +41,7 @@ type snpFw struct {
 	Vcpus   int      `json:"vcpus"`
 	Product string   `json:"product"`
 	Base    string   `json:"base"`
+	Meta    int      `json:"meta"`
 }
 type snpOp struct {
 	T     string `json:"t"`
@@ -143,6 +146,25 @@ func buildSnpImage(f snpFw, seed int64, resetAddr uint32) ([]byte, error) {
 	}
 	if err := fakeovmf.InitializeSevGUIDTable(img, oabi.FwGUIDTableEndOffset, resetAddr, secs); err != nil {
 		return nil, err
+	}
+	if f.Meta != 0 {
+		// the builder puts the metadata at byte 0; move it, and point the GUID table's offset block at the
+		// new place (the offset is counted from the end of the image)
+		n := oabi.SizeofSevMetadata + len(secs)*oabi.SizeofSevMetadataSection
+		at := 0x340
+		if f.Meta == 2 {
+			at = len(img) - 4096 + 0x180
+		}
+		meta := append([]byte{}, img[:n]...)
+		r.Read(img[:n])
+		copy(img[at:], meta)
+		var g [16]byte
+		oabi.PutUUID(g[:], uuid.MustParse(oabi.SevMetadataOffsetGUID))
+		p := bytes.LastIndex(img, g[:])
+		if p < 6 {
+			return nil, fmt.Errorf("metadata offset block not found")
+		}
+		binary.LittleEndian.PutUint32(img[p-6:], uint32(len(img)-at))
 	}
 	return img, nil
 }
@@ -356,9 +378,10 @@ func RunC04(run *vk.Run) {
 		}
 	}
 	allCases := []allCase{{name: "2 MiB example", img: img, ops: romSecOps(512, exSecOps), f: snpFw{Rom: 512}, rst: fakeovmf.SevEsAddrVal}}
-	gen := snpFw{Rom: 2, Secs: []snpSec{{Kind: 1, Addr: 1, Len: 1}, {Kind: 3, Addr: 3, Len: 1}, {Kind: 2, Addr: 2, Len: 1}}}
+	// (with a two-page kind-4 range: zero pages are measured without contents)
+	gen := snpFw{Rom: 2, Secs: []snpSec{{Kind: 1, Addr: 1, Len: 1}, {Kind: 3, Addr: 3, Len: 1}, {Kind: 4, Addr: 5, Len: 2}, {Kind: 2, Addr: 2, Len: 1}}}
 	if gimg, gerr := buildSnpImage(gen, run.Seed*31+5, 0x8123f0a0); gerr == nil {
-		genOps := []snpOp{{"UNMEASURED", "sec", 1}, {"CPUID", "sec", 3}, {"SECRETS", "sec", 2}}
+		genOps := []snpOp{{"UNMEASURED", "sec", 1}, {"CPUID", "sec", 3}, {"ZERO", "sec", 5}, {"ZERO", "sec", 6}, {"SECRETS", "sec", 2}}
 		allCases = append(allCases, allCase{name: "generated image with sections declared out of address order", img: gimg, ops: romSecOps(2, genOps), f: gen, rst: 0x8123f0a0})
 	} else {
 		run.Infra(gerr)
@@ -403,7 +426,7 @@ func RunC04(run *vk.Run) {
 	run.AddDrift(0)
 	_ = drift
 	run.Exhaustive = !run.IsQuick()
-	run.Rule = "every firmware description emitted by TLC from MeasureSnp.tla (all section lists up to 3 over 5 kinds x 3 addresses x 2 lengths x 2 vCPU counts x 2 products; all lists up to 4 over 3 kinds x addresses from guest-physical 0 with ROMs of 2, 5 and 7 pages (thorough: 4 kinds, 7 ROM sizes); all lists up to 3 over aligned/unaligned addresses and zero/unaligned lengths; thorough: all lists of 4 over 4 kinds x 4 addresses with 3 vCPUs) is built as a real image with pseudo-random contents; accepted descriptions must give the digest computed from the emitted operation sequence through the PAGE_INFO/VMSA tables, malformed ones must be rejected; quick replays a seeded fifth"
+	run.Rule = "every firmware description emitted by TLC from MeasureSnp.tla (all section lists up to 3 over 5 kinds x 3 addresses x 2 lengths x 2 vCPU counts x 2 products; all lists up to 3 over 3 kinds x addresses from guest-physical 0 with ROMs of 2, 5 and 7 pages and the metadata at three places of the image (thorough: lists up to 4 over 4 kinds, 7 ROM sizes); all lists up to 3 over aligned/unaligned addresses and zero/unaligned lengths; thorough: all lists of 4 over 4 kinds x 4 addresses with 3 vCPUs) is built as a real image with pseudo-random contents; accepted descriptions must give the digest computed from the emitted operation sequence through the PAGE_INFO/VMSA tables, malformed ones must be rejected; quick replays a seeded fifth"
 }
 
 // OutOfOrderImage builds a 2-page image whose SNP metadata lists its sections out of address order and
